@@ -35,7 +35,7 @@ impl TimerWheel {
     pub closed spec fn top(&self) -> TimeoutData { heap_top(&self.heap) }
     /// at most one entry per counter
     pub open spec fn uniq(&self) -> bool {
-        forall|x: TimeoutData, y: TimeoutData| self@.count(x) > 0 && self@.count(y) > 0 && x.ctr() == y.ctr() ==> x == y && self@.count(x) == 1
+        forall|x: TimeoutData, y: TimeoutData| #![trigger self@.count(x), self@.count(y)] self@.count(x) > 0 && self@.count(y) > 0 && x.ctr() == y.ctr() ==> x == y && self@.count(x) == 1
     }
     /// x is an entry with the earliest deadline
     pub open spec fn is_earliest(&self, x: TimeoutData) -> bool {
@@ -79,10 +79,6 @@ pub broadcast proof fn lemma_max_is_earliest(m: Multiset<TimeoutData>, x: Timeou
         proof { broadcast use TimeoutData::lemma_mk; }
 //@ enditem
 //@ item src/sources/timer.rs / impl TimerWheel / fn cancel props=C05
-//@ closure 1
--> (b: bool) ensures b == (data.ctr() == counter)
-//@ closure 2
--> (b: bool) ensures b == (data.ctr() != counter)
 //@ entry
         proof { broadcast use lemma_max_is_earliest; }
 //@ exit
@@ -101,7 +97,7 @@ pub broadcast proof fn lemma_max_is_earliest(m: Multiset<TimeoutData>, x: Timeou
             final(self).next_counter() == old(self).next_counter(),
 //@ enditem
 //@ item src/sources/timer.rs / impl TimerWheel / fn next_expired props=C05,C02 ret=r
-//@ closure 1
+//@ closure <<|data| now >= data.deadline>>
 -> (b: bool) ensures b == (nanos(now) >= data.ns())
 //@ entry
         proof { broadcast use lemma_max_is_earliest, axiom_instant_cmp; }
@@ -117,7 +113,7 @@ pub broadcast proof fn lemma_max_is_earliest(m: Multiset<TimeoutData>, x: Timeou
             final(self).next_counter() == old(self).next_counter(),
 //@ enditem
 //@ item src/sources/timer.rs / impl TimerWheel / fn next_deadline props=C05,C12 ret=r
-//@ closure 1
+//@ closure <<|data| data.deadline>>
 -> (d: Instant) ensures d == data.dl()
 //@ entry
         proof { broadcast use lemma_max_is_earliest; }
